@@ -569,7 +569,7 @@ def run_single(cid, tier, seed, out=sys.stdout, property_id=None):
     print('PROBES %s' % json.dumps(dict(sorted(agg.probes.items()))), file=out)
     if inconclusive:
         print('INCONCLUSIVE %d run(s) gave no answer within the per-run budget: %s' % (len(inconclusive), inconclusive[:20]), file=out)
-        if len(inconclusive) > max(3, len(results) // 40):
+        if len(inconclusive) > max(4, len(results) // 25):
             harness.append('too many inconclusive runs: %d of %d' % (len(inconclusive), len(results)))
     if violations:
         return 1, evidence
